@@ -170,6 +170,11 @@ DEFOP(pop) {
     auto pick_existing = [&](int64_t sel, bool allow_root) -> std::string {
         size_t lo = allow_root ? 0 : 1;
         if (ptrs.size() <= lo) return allow_root ? "" : "/";
+        if ((tweak % 6) == 1) {  // bias to first elements / first members (head of a sibling chain)
+            std::vector<size_t> firsts;
+            for (size_t i = lo; i < ptrs.size(); i++) { MVal *n = ptrs[i].second; if (n->parent && n->parent->kids.front() == n && n->parent->kids.size() >= 2) firsts.push_back(i); }
+            if (!firsts.empty()) return ptrs[firsts[(uint64_t)sel % firsts.size()]].first;
+        }
         return ptrs[lo + (uint64_t)sel % (ptrs.size() - lo)].first;
     };
     auto pick_addable = [&](int64_t sel) -> std::string {
